@@ -52,7 +52,13 @@ impl TimerState {
 
     pub(super) fn init(&mut self, cx: &mut Context<'_>) {
         if let TimerState::Active { timer } = self {
-            let _ = timer.as_mut().poll(cx);
+            // Deadlines are computed from the date service's cached clock, which may lag behind
+            // by up to its update interval, so a short timeout can already have elapsed here.
+            // A completed `Sleep` never wakes anybody: ask for another poll so that the timer is
+            // noticed instead of being waited on for ever.
+            if timer.as_mut().poll(cx).is_ready() {
+                cx.waker().wake_by_ref();
+            }
         }
     }
 }
